@@ -173,8 +173,11 @@ def c_lit(v, t):
     while d > 1:
         d //= 2
         e -= 1
-    suf = {"float": "f", "double": "", "long double": "L"}[t]
-    return "0x%xp%d%s" % (n, e, suf)
+    while n % 2 == 0 and n:
+        n //= 2
+        e += 1
+    assert n < 1 << 64
+    return "auv::ld<%s>(%dULL, %d)" % (t, n, e)
 
 
 def body(ctx):
